@@ -59,7 +59,7 @@ def run(tier, seed):
     rng = random.Random(seed)
 
     # --- A. metadata.Parse against the model, all three comment syntaxes switched on and off
-    texts = meta_variants(rng, 10000 if tier == "quick" else 20000)
+    texts = meta_variants(rng, 10000 if tier == "quick" else 150000)
     jobs, meta = [], []
     for t in texts:
         if any(ord(ch) > 127 for ch in t):
